@@ -294,6 +294,12 @@ func c04Check(c *core.Ctx, pool *cfg.Pool, spec cfg.Spec, src []byte, construct 
 	name := spec.Name()
 	md := pool.Get(spec)
 	c.Begin(name, src)
+	// the same document first goes through the unsafe twin of the configuration in this process: whatever an unsafe
+	// renderer leaves behind (a shared cache, a pooled buffer) must not reach the safe renderer's output
+	tw := spec
+	tw.Unsafe = true
+	_ = parseRender(pool.Get(tw), src)
+	c.Count("unsafe_twin_renders_before_the_safe_one", 1)
 	res := parseRender(md, src)
 	c.End()
 	c.Eval()
@@ -350,6 +356,9 @@ func c04Check(c *core.Ctx, pool *cfg.Pool, spec cfg.Spec, src []byte, construct 
 }
 
 func c04Bad(spec cfg.Spec, src []byte) []c04URL {
+	tw := spec
+	tw.Unsafe = true
+	_ = parseRender(tw.Build(), src)
 	res := parseRender(spec.Build(), src)
 	if !res.OK() {
 		return nil
